@@ -194,6 +194,12 @@ func checkC04(c *Ctx) {
 			}
 		}
 	}
+	// (9) every escape kind with its backslash at every offset 0..70 of the string
+	// (i.e. at every position of the 32-byte windows the kernels walk), with the
+	// closing quote inside or outside the escape's window
+	for _, stream := range escapeOffsetDocs(r, c.Thorough()) {
+		add("escape-offset", stream)
+	}
 	// (8) truncated escapes right before the closing quote
 	for _, esc := range []string{`\`, `\u`, `\u0`, `\u00`, `\u004`, `\ud83d`, `\ud83d\`, `\ud83d\u`, `\ud83d\ud`, `\ud83d\ude`, `\ud83d\ude0`} {
 		for off := 0; off < 64; off += 3 {
@@ -291,4 +297,31 @@ func safeParseString(msg []byte, max uint64, cp bool) (ok bool, tape []uint64, s
 	}()
 	ok, tape, strs = simdjson.VerifParseString(msg, 0, max, cp)
 	return
+}
+
+// escapeOffsetDocs: documents whose string (value or key) has one escape of
+// each kind after 0..70 plain bytes, followed by a short or a long tail.
+func escapeOffsetDocs(r *Rng, thorough bool) [][]byte {
+	var out [][]byte
+	escs := []string{`\n`, `\"`, `\\`, `\u0041`, `\u00e9`, `\u20ac`, `\ud83d\ude00`, `\uD834\uDD1E`, `\ud800\udc00\n`, `\u0041\u0042`}
+	tails := []int{0, 1, 5, 12, 40}
+	for off := 0; off <= 70; off++ {
+		for _, e := range escs {
+			for _, tl := range tails {
+				if !thorough && tl == 40 && off%2 == 1 {
+					continue
+				}
+				body := strings.Repeat("p", off) + e + strings.Repeat("t", tl)
+				switch (off + tl) % 3 {
+				case 0:
+					out = append(out, []byte(`["`+body+`"]`))
+				case 1:
+					out = append(out, []byte(`{"`+body+`":1}`))
+				default:
+					out = append(out, []byte(`{"k":"`+body+`","z":0}`))
+				}
+			}
+		}
+	}
+	return out
 }
